@@ -21,6 +21,7 @@ import NdnVerif.C18.LemmasLoss
 import NdnVerif.C18.LemmasAsync
 import NdnVerif.C18.AsyncFacts
 import NdnVerif.C18.LemmasSynced
+import NdnVerif.C18.AsyncStar
 namespace Ndn.C18
 
 /-- the regenerated constant is the protocol's infinity metric -/
@@ -357,6 +358,45 @@ theorem pending_work_drains (st : St) :
 open Async in
 example : drains (run (init 5) [.change, .change]) [.runFib, .runFib, .runNotify, .runNotify, .runSend, .runSend] = true ∧
     work (run (init 5) [.change, .change]) = 18 := by decide
+
+open Async in
+/-- **Every neighbour at once.**  One advertiser, n listeners, every global history (steps of the advertiser happen
+    on all links together — a Sync Interest is multicast, each copy fares on its own —, steps of a listener or of a
+    channel on one link): every link is a run of the single-link system (`grun_proj`), all links agree on the
+    advertiser's state (`coupled_grun`), hence whenever link k is quiescent and its listener has heard the current
+    number, listener k has applied the advertiser's CURRENT advertisement — the same version for every such k. -/
+theorem star_quiescent_links_are_synced (n s0 : Nat) (h0 : 1 ≤ s0) (steps : List GStep) :
+    let gs := grun (ginit n s0) steps
+    (∀ s ∈ gs, ∀ t ∈ gs, s.ver = t.ver ∧ s.seq = t.seq) ∧
+    ∀ st ∈ gs, Quiescent st → Heard st → st.applied = some st.ver ∧ st.fibVer = st.ver := by
+  intro gs
+  constructor
+  · intro s hs t ht
+    have := coupled_grun (coupled_ginit n s0) steps s hs t ht
+    simp only [St.w, WPart.mk.injEq] at this
+    exact ⟨this.1, this.2.1⟩
+  · intro st hst q hd
+    obtain ⟨k, hk⟩ := List.mem_iff_getElem?.1 hst
+    have hp := grun_proj (ginit n s0) steps k
+    rw [hk] at hp
+    cases hi : (ginit n s0)[k]? with
+    | none => rw [hi] at hp; cases hp
+    | some i0 =>
+      rw [hi] at hp
+      have e0 : i0 = init s0 := List.eq_of_mem_replicate (List.mem_of_getElem? hi)
+      subst e0
+      simp only [Option.map_some, Option.some.injEq] at hp
+      have inv : Inv st := by rw [hp]; exact inv_run (inv_init s0 h0) _
+      have := quiescent_heard inv q hd
+      exact ⟨this.1, this.2.1⟩
+
+open Async in
+example : let gs := grun (ginit 2 5) [.adv .change, .adv .runFib, .adv .runNotify, .adv .runSend,
+      .link 0 (.deliverSync 0 false), .link 1 (.dropSync 0), .link 0 (.runFetch 0), .link 0 (.serve 0 false),
+      .link 0 (.deliverData 0 false), .link 0 .runRib, .adv .heartbeat, .link 0 (.deliverSync 0 false),
+      .link 1 (.deliverSync 0 false), .link 1 (.runFetch 0), .link 1 (.serve 0 false), .link 1 (.deliverData 0 false),
+      .link 1 .runRib]
+    gs.map (·.applied) = [some 1, some 1] ∧ gs.all (fun st => decide (Quiescent st)) = true := by decide
 
 /-! ### from quiescent links to shortest paths
 
